@@ -602,8 +602,8 @@ func (p *Parser) evaluateBuiltInFunction(tokenType lexer.TokenType, keyword stri
 			nextToken = p.peek()
 			nextTokenType := nextToken.Type()
 
-			// If it's one of several arguments, function must only return one value.
-			if returnValuesLength > 1 && (nextTokenType == lexer.COMMA || len(expressions) > 1) {
+			// If it's one of several arguments, function must only return one value (only print takes all values of a single call).
+			if returnValuesLength > 1 && (nextTokenType == lexer.COMMA || len(expressions) > 1 || tokenType != lexer.PRINT) {
 				return nil, p.expectedError(fmt.Sprintf(`only one return value from function "%s"`, funcName), argToken)
 			}
 
